@@ -23,7 +23,7 @@ props.prop(
                 'NaN/blank conventions: those quantify over array contents and external library behaviour',
     assumptions=['Table.write / h5py / fits write what they are given'])
 props.also('C19',
-           'that exporters never read category codes; that the subset mask reaches every written column also when it is applied as a filter condition of the writer')
+           'that exporters never read category codes; that the subset mask reaches every written column also when it is applied as a filter condition of the writer; that the sentinel written into masked integer pixels is announced as BLANK unconditionally')
 
 EXPORTERS = [
     ('glue.core.data_exporters.astropy_table.data_to_astropy_table', 0),
